@@ -322,6 +322,7 @@ func (st *PState) TypeFacts(v T, t types.Type, depth int) {
 	if v.Sort == SSlice {
 		st.Assume(And(App(SBool, ">=", App(SInt, "slen", v), IntLit(0)), App(SBool, ">=", App(SInt, "scap", v), App(SInt, "slen", v)),
 			App(SBool, ">=", App(SInt, "soff", v), IntLit(0)), App(SBool, ">=", App(SInt, "sbase", v), IntLit(0)),
+			App(SBool, "<", App(SInt, "sbase", v), T{S: "REF0", Sort: SInt}), // not one of this function's own allocations
 			Implies(Eq(App(SInt, "sbase", v), IntLit(0)), Eq(App(SInt, "slen", v), IntLit(0)))))
 		return
 	}
